@@ -229,7 +229,7 @@ pub fn check_shape(mode: GameMode, pts: &[PathControlPoint], bufs: &mut CurveBuf
         }
         if *kind == SplineType::Linear {
             let want: Vec<Pos> = seg.iter().map(|p| p.pos).collect();
-            if c.path() != want.as_slice() {
+            if !super::curves::same_points(c.path(), want.as_slice()) {
                 viol("linear-not-polyline", format!("{:?}", c.path()), acc);
             }
         }
@@ -239,7 +239,7 @@ pub fn check_shape(mode: GameMode, pts: &[PathControlPoint], bufs: &mut CurveBuf
                 let mut b = seg.clone();
                 b[0].path_type = Some(PathType::BEZIER);
                 let bc = Curve::new(mode, &b, None, bufs);
-                if bc.path() != c.path() {
+                if !super::curves::same_points(bc.path(), c.path()) {
                     viol("arc-fallback", "collinear/enormous perfect curve differs from the bezier of the same points".into(), acc);
                 }
             }
